@@ -87,6 +87,7 @@ type world struct {
 	gates        []chan *peer.TorStats // gates queued and not yet read
 	parked       bool                  // the loop is parked on gates[0] after a sync
 	mirror       []byte                // what the harness put into the loop's queue and the loop has not passed yet: 'g' gate, 'r' real command
+	exclusive    bool                  // the harness is the only producer of commands (then queue lengths are exact)
 	verifiedEver map[int]int           // piece -> step at which it was last verified
 }
 
@@ -205,7 +206,7 @@ func (w *world) park() bool {
 // of the queue: from then on the length of the queue only changes by what
 // is put into it.
 func (w *world) steady() bool {
-	if len(w.mirror) == 0 || w.mirror[0] != 'g' {
+	if !w.exclusive || len(w.mirror) == 0 || w.mirror[0] != 'g' {
 		return true
 	}
 	for deadline := time.Now().Add(10 * time.Second); time.Now().Before(deadline); {
@@ -341,6 +342,7 @@ func runRequests(sc *Scenario, out *Out) {
 		return
 	}
 	defer w.kill()
+	w.exclusive = true
 	tor.VerifYield = yieldHook
 	defer func() { tor.VerifYield = nil }()
 	cons := map[string]*consumer{}
